@@ -25,7 +25,10 @@ type Case struct {
 	B XY         `json:"b"`
 	C XY         `json:"c"`
 	L [3]float32 `json:"lum"` // luminance Y of the three whites (0 means 1)
-	V [3]float32 `json:"v"`   // colour for linearity
+	// XYZ, when set, gives the three whites directly as XYZ triples (constants that occur in practice, e.g. the
+	// ICC PCS illuminant as encoded in s15Fixed16); the xyY-constructor checks are skipped for such cases
+	XYZ *[3][3]float32 `json:"xyz,omitempty"`
+	V   [3]float32     `json:"v"` // colour for linearity
 }
 
 func (c Case) lum(i int) float32 {
@@ -115,6 +118,11 @@ func check(c Case) (kind, what string) {
 func checkInner(c Case) (kind, what string) {
 	// float32 whites supplied by the harness (float64 conversion, rounded)
 	A32, B32, C32 := f32(xyzExactL(c.A, c.lum(0))), f32(xyzExactL(c.B, c.lum(1))), f32(xyzExactL(c.C, c.lum(2)))
+	if c.XYZ != nil {
+		A32 = ciexyz.Color{X: c.XYZ[0][0], Y: c.XYZ[0][1], Z: c.XYZ[0][2]}
+		B32 = ciexyz.Color{X: c.XYZ[1][0], Y: c.XYZ[1][1], Z: c.XYZ[1][2]}
+		C32 = ciexyz.Color{X: c.XYZ[2][0], Y: c.XYZ[2][1], Z: c.XYZ[2][2]}
+	}
 	A, B, Cw := f64(A32), f64(B32), f64(C32)
 	cAB := condOf(A) + condOf(B)
 	ab := toRef(matrix.Matrix3(ciexyz.AdaptBetweenXYZWhitePoints(A32, B32)))
@@ -167,6 +175,9 @@ func checkInner(c Case) (kind, what string) {
 	}
 	if d, i, j := maxAbsDiff(bc.Mul(ab), ac); !(d <= 1e-10*(1+bc.NormInf()*ab.NormInf())*cAll) {
 		return "compose", fmt.Sprintf("(B->C)(A->B) differs from A->C at [%d][%d] by %.3g for A=%v B=%v C=%v", i, j, d, c.A, c.B, c.C)
+	}
+	if c.XYZ != nil {
+		return "", ""
 	}
 	// (vi) xyY constructor
 	xy := toRef(matrix.Matrix3(ciexyz.AdaptBetweenXYYWhitePoints(xyYL(c.A, c.lum(0)), xyYL(c.B, c.lum(1)))))
@@ -268,8 +279,8 @@ func TestC12(t *testing.T) {
 	bad := false
 	run := func(c Case, tag string) {
 		ev.Eval(1)
-		if c.A != c.B {
-			ev.NT(ev.Hash(tag, c.A, c.B, c.C))
+		if c.A != c.B || c.XYZ != nil {
+			ev.NT(ev.Hash(tag, c.A, c.B, c.C, c.L, fmt.Sprint(c.XYZ)))
 		}
 		if bad {
 			return
@@ -292,6 +303,23 @@ func TestC12(t *testing.T) {
 		}
 	}
 	ev.Class("cie-table-triples", int64(len(names)*len(names)*len(names)))
+	// XYZ constants used in practice for the same illuminants (different sources round differently)
+	xyzTable := [][3]float32{
+		{ciexyz.D50.X, ciexyz.D50.Y, ciexyz.D50.Z}, {ciexyz.D65.X, ciexyz.D65.Y, ciexyz.D65.Z},
+		{0.96420288, 1, 0.82490540},                // ICC PCS illuminant (s15Fixed16 0xF6D6 0x10000 0xD32D)
+		{0.9642, 1, 0.8249}, {0.96422, 1, 0.82521}, // D50 as in ICC.1 text / ASTM E308
+		{0.95047, 1, 1.08883}, {0.9505, 1, 1.089}, {0.95045593, 1, 1.08905775}, // D65 variants
+		{1, 1, 1}, {1.0985, 1, 0.35585}, {0.98074, 1, 1.18232}, {0.95682, 1, 0.92149}, {0.94972, 1, 1.22638}, // E, A, C, D55, D75
+		{0.48210144, 0.5, 0.41245270}, {96.42, 100, 82.49}, // scaled
+	}
+	for i, a := range xyzTable {
+		for j, b := range xyzTable {
+			cc := xyzTable[(i+j+1)%len(xyzTable)]
+			x := [3][3]float32{a, b, cc}
+			run(Case{XYZ: &x, V: [3]float32{0.4, 0.2, 0.9}}, "xyz-table")
+		}
+	}
+	ev.Class("xyz-constant-pairs", int64(len(xyzTable)*len(xyzTable)))
 	ev.Sample(map[string]any{"A": "D50 " + fmt.Sprint(table["D50"]), "B": "D65 " + fmt.Sprint(table["D65"]),
 		"library":   toRef(matrix.Matrix3(ciexyz.AdaptBetweenXYYWhitePoints(xyY(table["D50"]), xyY(table["D65"])))),
 		"reference": ref.Bradford(xyzExact(table["D50"]), xyzExact(table["D65"]))})
